@@ -876,6 +876,12 @@ class PolyhedralTermList(TermList):  # noqa: WPS338
         if maximize:
             polarity = -1
         res = linprog(c=polarity * obj_mat[0], A_ub=self_mat, b_ub=self_cons, bounds=(None, None))
+        if res["status"] in {2, 4}:
+            # the solver's presolve can report an unbounded problem as infeasible (or as
+            # "unbounded or infeasible"); solve again without presolve to tell which one it is
+            res = linprog(
+                c=polarity * obj_mat[0], A_ub=self_mat, b_ub=self_cons, bounds=(None, None), options={"presolve": False}
+            )
         # Linprog's status values
         # 0 : Optimization proceeding nominally.
         # 1 : Iteration limit reached.
